@@ -127,6 +127,7 @@ impl<'xml> Deserializer<'xml> {
             let ev = self.inner.read_event().map_err(invalid_xml)?;
             let de = match ev {
                 Event::Start(x) => {
+                    check_attributes(&x)?;
                     self.depth += 1;
                     DeEvent::Start(x)
                 }
@@ -155,6 +156,7 @@ impl<'xml> Deserializer<'xml> {
                 Event::Eof => DeEvent::Eof,
 
                 Event::Empty(x) => {
+                    check_attributes(&x)?;
                     // translate `<CSV/>` to `<CSV></CSV>`
                     self.next_slot = Some(DeEvent::End(x.to_end().into_owned()));
                     DeEvent::Start(x)
@@ -416,6 +418,15 @@ impl fmt::Debug for Deserializer<'_> {
 /// White space of XML 1.0: space, tab, carriage return, line feed
 const fn is_xml_whitespace(b: u8) -> bool {
     matches!(b, b' ' | b'\t' | b'\r' | b'\n')
+}
+
+/// Every attribute of a start tag is written `name = "value"` or `name = 'value'` and no name occurs twice
+/// (XML 1.0, production [41] and the constraint *Unique Att Spec*).
+fn check_attributes(start: &BytesStart<'_>) -> DeResult<()> {
+    for attr in start.attributes() {
+        attr.map_err(|e| invalid_xml(e.into()))?;
+    }
+    Ok(())
 }
 
 /// A name of XML 1.0 (production [5]); every character outside ASCII is taken as a name character
